@@ -209,10 +209,10 @@ def _run_pcgls_body(c, rec, Am, P, b, x0, m, n, maxit):
     H = Am.T @ Am + sh * np.eye(n)
     g = Am.T @ b - H @ sol
     scale = np.linalg.norm(Am.T @ b) + np.linalg.norm(H) * (np.linalg.norm(sol) + np.linalg.norm(x0)) + 1e-140
-    require(np.linalg.norm(g) <= 1e-7 * scale, "PCGLS result does not solve the (shifted) normal equations (A^T A + shift I) x = A^T b",
+    require(np.linalg.norm(g) <= 1e-9 * scale, "PCGLS result does not solve the (shifted) normal equations (A^T A + shift I) x = A^T b",
             residual=np.linalg.norm(g), k=k, shift=sh)
     ref = np.linalg.solve(H, Am.T @ b) if (m >= n or sh > 0) else x0 + _min_P_correction(Am, Pm, b - Am @ x0)
-    require(maxdiff(sol, ref) <= 1e-6 * (np.max(np.abs(ref)) + np.max(np.abs(x0))) + 1e-140, "PCGLS result differs from the reference solution", got=sol, ref=ref,
+    require(maxdiff(sol, ref) <= 1e-8 * (np.max(np.abs(ref)) + np.max(np.abs(x0))) + 1e-140, "PCGLS result differs from the reference solution", got=sol, ref=ref,
             shift=sh)
     sol2, k2 = cuqi.solver._solver.PCGLS(op_forms(Am, other_form(c["form"])), b, x0, sp.csc_matrix(Pm), maxit, 1e-12, **kw).solve()
     require(k2 == k and maxdiff(sol2, sol) <= 1e-10 * (np.max(np.abs(sol)) + np.max(np.abs(x0))) + 1e-140, "matrix form and function form of PCGLS disagree")
